@@ -127,3 +127,19 @@ chk(
     "runtime monitoring: post-condition contracts on every yielded schedule plus a differential monitor of the SVD matcher against exact rational row-space equality",
     "DESIGN.md section 3 C16",
 )
+chk(
+    "C17",
+    "translation_validation",
+    "Every generated loop nest (depth<=3, constant and dynamic bounds/steps incl. upper bounds that are not a multiple of the step, markers / pure ops / alloc / dim / affine.min / subview / copy / kernels / barriers before, inside and after inner loops, perfect and imperfect nests, index iter_args) and the loop/alloc filecheck corpus is pushed through the real pipeline-canonicalize-for and the real reuse-memref-allocs and executed before and after on the trace machine for up to 4 runtime vectors; the sequences of side-effecting ops with evaluated index operands and, for every buffer at its point of use, the elements and shape of the allocation it covers are compared (alloc events themselves exempt for the hoisting pass); verifier failure, use-before-def or a machine error after the pass is a violation. Holds on the executions observed apart from two known findings attributed by mechanism; sampled, not exhaustive.",
+    TB + "trace machine vf/interp/trace_m.py on the logical buffer machine vf/interp/buf_m.py; buffer contents are not compared. Known findings (MoveMemrefDims replaces an affine.min by a constant for all users; MergeForLoops merges imperfect nests) are attributed by a structural predicate plus a counterfactual re-run with a rejecting pattern (vf/counterfactual/loops.py). Pass crashes are rejections.",
+    "runtime monitoring: before/after execution traces of the real passes on an abstract buffer machine (operation-sequence comparison, dynamic use-before-def monitor)",
+    "DESIGN.md section 3 C17",
+)
+chk(
+    "C14",
+    "translation_validation",
+    "Every generated function (copies and xdma regions = data mover, linalg.generic and streaming regions on other accelerators = compute, markers/arith/alloc/subview/barriers = all cores; straight-line, nested scf.for/scf.if, multi-block, called helper functions; each op tagged by the generator) and every filecheck function with dispatchable ops that executes is pushed through the real dispatch-regions for two core counts out of {2,3,4,8} and through function-constant-pinning; for every core id the dispatched and the pinned module are executed and their trace must equal the original trace filtered by the generator's tags (dm iff core N-1, compute iff core 0, rest always), for 2 runtime vectors; verifier failure or use-before-def is a violation. Holds on the executions observed; sampled, not exhaustive.",
+    TB + "trace machine vf/interp/trace_m.py (func.call @snax_cluster_core_idx returns the core id; one core executed at a time, buffer contents not compared). The classification is the generator's (by op name for corpus inputs), never snaxc.util.dispatching_rules. function-constant-pinning is xDSL's pass. Pass crashes are rejections.",
+    "runtime monitoring: per-core execution traces of the real pass output compared with the tag-filtered trace of the original program",
+    "DESIGN.md section 3 C14",
+)
